@@ -62,7 +62,8 @@ func TestBoundedC08Record(t *testing.T) {
 	}
 	payloads := [][]byte{{}, {0}, {1, 2, 3}, []byte("{\"a\":1}"), bytes.Repeat([]byte{0xff}, 200), bytes.Repeat([]byte("x"), 70000)}
 	formats := []uint8{dsd.RAW, dsd.JSON, dsd.CBOR, dsd.MsgPack, dsd.YAML, dsd.GenCode, 2, 127, 128, 200, 255}
-	keys := []string{"db:k", "db:a/b/c", "db:é", "db:"}
+	// (keys whose database-key part contains further colons: only the first colon separates the database name)
+	keys := []string{"db:k", "db:a/b/c", "db:é", "db:", "db:a:b", "db:intel/entity/example.com:443", "db:tree/[fe80::1]:53", "db::"}
 	var valid [][]byte
 	// wrapped raw data
 	for mi, m := range metas {
@@ -97,7 +98,7 @@ func TestBoundedC08Record(t *testing.T) {
 						fail(desc + ": parse: " + err.Error())
 						return
 					}
-					if back.Key() != w.Key() || !reflect.DeepEqual(*back.Meta(), *m) {
+					if w.Key() != key || back.Key() != key || !reflect.DeepEqual(*back.Meta(), *m) {
 						fail(fmt.Sprintf("%s: key %q meta %+v", desc, back.Key(), *back.Meta()))
 						return
 					}
@@ -124,8 +125,9 @@ func TestBoundedC08Record(t *testing.T) {
 			cases++
 			desc := fmt.Sprintf("typed record #%d meta=%+v", ti, *m)
 			guard(desc, func() {
+				tkey := []string{"db:typed/key", "db:typed/host:443", "db:a:b:c"}[mi%3]
 				r := &c08rec{S: typed[ti].S, N: typed[ti].N, B: typed[ti].B, L: typed[ti].L}
-				r.SetKey("db:typed/key")
+				r.SetKey(tkey)
 				mc := *m
 				r.SetMeta(&mc)
 				data, err := r.MarshalRecord(r)
@@ -133,7 +135,7 @@ func TestBoundedC08Record(t *testing.T) {
 					fail(desc + ": marshal: " + err.Error())
 					return
 				}
-				back, err := NewRawWrapper("db", "typed/key", data)
+				back, err := NewRawWrapper("db", tkey[3:], data)
 				if err != nil {
 					fail(desc + ": parse: " + err.Error())
 					return
@@ -153,7 +155,7 @@ func TestBoundedC08Record(t *testing.T) {
 					fail(desc + ": unwrap: " + err.Error())
 					return
 				}
-				if got.S != r.S || got.N != r.N || !bytes.Equal(got.B, r.B) || !(len(got.L) == 0 && len(r.L) == 0 || reflect.DeepEqual(got.L, r.L)) || got.Key() != r.Key() || !reflect.DeepEqual(*got.Meta(), *m) {
+				if got.S != r.S || got.N != r.N || !bytes.Equal(got.B, r.B) || !(len(got.L) == 0 && len(r.L) == 0 || reflect.DeepEqual(got.L, r.L)) || got.Key() != tkey || r.Key() != tkey || !reflect.DeepEqual(*got.Meta(), *m) {
 					fail(fmt.Sprintf("%s: unwrapped record differs: %q %d %v %v key %q", desc, got.S, got.N, got.B, got.L, got.Key()))
 				}
 			})
